@@ -84,6 +84,30 @@ def eval_pair(font, g1, g2, script, features=("kern", "dist"), lenient=False, la
             tot = [a + b for a, b in zip(tot, v)]; n += (1 if any(v) else 0)
             break
     return tuple(tot), n, second
+def eval_pair_across(font, g1, mid, g2, script, features=("kern", "dist"), lang="dflt"):
+    """xAdvance added to g1 in the glyph run [g1, mid, g2]: each pair lookup pairs g1 with the next glyph its LookupFlag does not skip"""
+    if "GPOS" not in font: return 0
+    t = font["GPOS"].table
+    tot = 0
+    for li in lookups_for(font, script, features, lang):
+        lk = t.LookupList.Lookup[li]
+        if skipped(font, lk, g1): continue
+        nxt = g2 if skipped(font, lk, mid) else mid
+        if nxt == g2 and skipped(font, lk, g2): continue
+        for st in _subtables(lk):
+            if st.LookupType != 2: continue
+            if g1 not in st.Coverage.glyphs: continue
+            if st.Format == 1:
+                ps = st.PairSet[st.Coverage.glyphs.index(g1)]
+                hit = [p for p in ps.PairValueRecord if p.SecondGlyph == nxt]
+                if not hit: continue
+                v = _vr(hit[0].Value1)
+            else:
+                c1 = st.ClassDef1.classDefs.get(g1, 0); c2 = st.ClassDef2.classDefs.get(nxt, 0)
+                v = _vr(st.Class1Record[c1].Class2Record[c2].Value1)
+            tot += v[2]
+            break
+    return tot
 def _axy(a): return (a.XCoordinate, a.YCoordinate)
 def eval_attach(font, g1, g2, script, comp=None, features=("mark", "mkmk", "abvm", "blwm")):
     """-> (kind, (dx,dy)) of the last applying attachment of mark g2 to g1, or None"""
